@@ -35,6 +35,8 @@ def _py(slot, k, s):
         "comprehension": ([f"def cp_{k}(xs):", f"    return [x * {s} for x in xs]"], 1),
         "sliceBound": ([f"def sl_{k}(xs):", f"    return xs[:{s}]"], 1),
         "unaryMinus": ([f"def um_{k}(x):", f"    return x + -{s}"], 1),
+        "classUpperConst": ([f"class Limits{k}:", f"    LIMIT_{k} = {s}"], 1),
+        "localUpperConst": ([f"def lc_{k}():", f"    LOCAL_{k} = {s}", f"    return LOCAL_{k}"], 1),
         "upperCallArg": ([f"TOTAL_{k} = max({s}, len(__name__))"], 0),
         "upperFuncBody": ([f"HANDLER_{k} = lambda x: x + {s}"], 0),
     }[slot]
